@@ -706,6 +706,29 @@ func definitelyError(v ssa.Value) bool {
 	return false
 }
 
+// nonNilOnPath: the error value is known to be non-nil where block b runs - b lies on the not-nil side of a test
+// `e != nil` / `e == nil` of the same value (an error handed on from a helper: `if err := f(); err != nil { return zero, err }`).
+func nonNilOnPath(fn *ssa.Function, e ssa.Value, at *ssa.BasicBlock) bool {
+	for _, d := range fn.Blocks {
+		iff, ok := d.Instrs[len(d.Instrs)-1].(*ssa.If)
+		if !ok {
+			continue
+		}
+		bo, ok := iff.Cond.(*ssa.BinOp)
+		if !ok || (bo.Op != token.NEQ && bo.Op != token.EQL) || bo.X != e || !isNilConst(bo.Y) {
+			continue
+		}
+		side := d.Succs[0]
+		if bo.Op == token.EQL {
+			side = d.Succs[1]
+		}
+		if len(side.Preds) == 1 && (side == at || side.Dominates(at)) {
+			return true
+		}
+	}
+	return false
+}
+
 func (x *rfx) returnsTyped(fn *ssa.Function, want string) (bool, string) {
 	wantN := x.norm(want)
 	n := 0
@@ -715,7 +738,7 @@ func (x *rfx) returnsTyped(fn *ssa.Function, want string) (bool, string) {
 			continue
 		}
 		if len(ret.Results) > 1 {
-			if definitelyError(ret.Results[len(ret.Results)-1]) {
+			if definitelyError(ret.Results[len(ret.Results)-1]) || nonNilOnPath(fn, ret.Results[len(ret.Results)-1], b) {
 				continue // an error return: the value is not used by callers that test err
 			}
 			if k, ok := ret.Results[len(ret.Results)-1].(*ssa.Const); ok && k.Value != nil && k.Value.Kind() == constant.Bool && !constant.BoolVal(k.Value) {
